@@ -24,7 +24,7 @@ def _load():
 NOT_APPLICABLE = {}
 # checks whose files exist but which are not claimed yet (listed under not_applicable with the reason given)
 PENDING = {}
-HOOK_COMMITS = []
+HOOK_COMMITS = ['c08508c']   # verif hook: scheduling point in SWSR_Ptr_Buffer::reset (guard FIX8_VERIF + FIX8_VERIF_POINT, used by harness/c30_mpmc.cpp only)
 ENGINES = [
     dict(name='enum', path='engines/vh.hpp + harness/c07_chksum.cpp, c08_numeric.cpp, c09_datetime.cpp, c10_realm.cpp, c12_lookup.cpp, c24_schedule.cpp, c29_rotation.cpp, c32_xml.cpp', serves_properties=['C07', 'C08', 'C09', 'C10', 'C12', 'C24', 'C29', 'C32'],
          kind_free_text='exhaustive enumeration of a stated finite input lattice over the real code, sharded over 16 processes; sanitizers and guard pages as oracles'),
